@@ -11,12 +11,27 @@ int48/uint48 pair - under every length form (expression, null-terminated, EOF, f
 the set is then held to the same laws as above (reference parser, dumps, size-mismatch refusal, model), in any order of use.
 For aligned structures ending in x[EOF] the dump's tail padding is read back as elements: known finding F30 (classified by its
 signature, printed as KNOWN-FINDING).
+
+Mixed-form dimensions (harness/t2_arrays.py, family A): `<1-3 count fields>; ELEM a[d1][d2]([d3])` where every dimension draws its
+own length form (fixed / expression over the earlier fields and constants / EOF, outermost or rarely inner / null-terminated
+innermost), with constants defined after the structure on the same instance, some NAMED LIKE A FIELD (the field parsed before the
+array wins) and some that are no field (the fall-back), 15 element kinds incl. a structure whose own count field is called like a
+field of the enclosing structure; count values are chosen so that EOF dimensions have non-empty elements and bodies hold whole
+rows; same laws (reference parser incl. consumed bytes, dumps, model); a parse that makes no progress is cut after 3 s and
+reported as error class Hang.  The variant with the same-named constant defined BEFORE the structure is a PENDING-FINDING
+(disabled, see run_mixed).
+
+Partial-zero elements (family B): null-terminated arrays of 16 multi-byte element kinds (wchar, 2/3/4/6/8/16-byte integers, enums,
+all-integer structures) at even and odd offsets, followed by further fields and a second null-terminated array, over inputs built
+element by element so that zero bytes sit on both sides of element boundaries without forming a zero element (also single
+non-zero-byte elements), 0-70 elements (around the 32/64 element marks), with, without and with a truncated terminator; the same
+inputs also feed the null-terminated structures of the directed product and of the definition sets.
 """
 from __future__ import annotations
 
 import itertools
 
-from .. import defs, impl, refimpl, s3_sets
+from .. import defs, impl, refimpl, s3_sets, t2_arrays
 from ..common import Result, mkrng
 from ..structprops import Engine, load, real_parse, rand_bytes
 
@@ -56,7 +71,10 @@ def make_trees(rnd, tier):
     return out
 
 
-def make_input(rnd, form, tree=None):
+def make_input(rnd, form, tree=None, cfg=None):
+    if form == "null" and tree is not None and cfg is not None and rnd.random() < 0.4:
+        # partial-zero elements: zero bytes on both sides of element boundaries, no zero element before the terminator
+        return t2_arrays.emit_input(rnd, tree, cfg)
     n0 = rnd.choice([0, 1, 2, 3, 4, 5, 7, 255, 128])
     body = rand_bytes(rnd, rnd.choice([6, 13, 30, 61]))
     if form == "null" and rnd.random() < 0.7:
@@ -65,12 +83,16 @@ def make_input(rnd, form, tree=None):
     return bytes([n0]) + body
 
 
-def check_case(eng, res, L, form, en, data, cfg, sigs):
+def check_case(eng, res, L, form, en, data, cfg, sigs, label=None):
     """all array-length laws on one (structure `n; a[..]; tail`, input): the parse agrees with the reference parser (number of
     elements, element boundaries, consumed bytes), dumps parses back (terminator re-appended), a fixed-size array with another
-    number of elements is refused, the model agrees"""
+    number of elements is refused, the model agrees.  `a` is the field number L.arr_index (default 1)."""
     T, tree, compiled = L.T, L.tree, L.compiled
-    want, obj = real_parse(T, data)
+    try:
+        with t2_arrays.time_limit(3.0):  # a to-end-of-stream loop that makes no progress is reported (error class Hang), not waited for
+            want, obj = real_parse(T, data)
+    except t2_arrays.Hang:
+        want, obj = ("err", "Hang"), None
     try:
         rv, rend, _ = refimpl.parse(tree, data, 0, cfg)
         ref = ("ok", rv, rend)
@@ -80,10 +102,10 @@ def check_case(eng, res, L, form, en, data, cfg, sigs):
         ref = ("err", "Bad")
     nelem = 0
     if want[0] == "ok":
-        a = want[1][2]
+        a = want[1][1 + getattr(L, "arr_index", 1)]
         nelem = (len(a) - 1) if a[0] in ("list", "wstr") else len(a[1])
     res.count((L.text, getattr(L, "name", "T"), L.endian, L.align, compiled, data), nelem >= 1)
-    res.feat(f"{form}:{en}")
+    res.feat(label or f"{form}:{en}")
     cd = eng.case_data(L, data=data)
     if hasattr(L, "name"):
         cd["structure"] = L.name
@@ -153,7 +175,71 @@ def run_sets(env, eng, res, rnd):
             for M in order:
                 sigs = eng.sigs(M)
                 for _i in range(3 if tier == "quick" else 6):
-                    check_case(eng, res, M, "fixed" if M.form == "fixed" else M.form, "set:" + M.en, make_input(rnd, M.form), cfg, sigs)
+                    check_case(eng, res, M, "fixed" if M.form == "fixed" else M.form, "set:" + M.en, make_input(rnd, M.form, M.tree, cfg), cfg, sigs)
+        if len(eng.lines) > 4000:
+            eng.flush()
+    eng.flush()
+
+
+def run_mixed(env, eng, res, rnd):
+    """multi-dimensional arrays whose dimensions mix the length forms; constants named like fields (t2_arrays family A)"""
+    tier = env["tier"]
+    for _ in range(260 if tier == "quick" else 4000):
+        plan = t2_arrays.mixed_plan(rnd)
+        forms, en = plan["forms"], plan["en"]
+        form = "eof" if "eof" in forms else ("multidim" if all(f == "fixed" for f in forms) else "mixed")
+        for endian, align, compiled in itertools.product("<>", (False, True), (False, True)):
+            if rnd.random() < (0.65 if tier == "quick" else 0.4):
+                continue
+            try:
+                L = t2_arrays.MixedView(plan, endian=endian, align=align, compiled=compiled)
+            except Exception as e:  # noqa: BLE001
+                res.feat("mixdim-rejected:" + "/".join(forms))
+                eng.report(f"array definition rejected: {type(e).__name__}: {e}",
+                           {"definition": defs.render_struct("T", plan["tree"]), "constants": plan["consts"], "endian": endian, "align": align, "compiled": compiled}, [])
+                continue
+            cfg = refimpl.Cfg(endian, align, "uint64", L.consts)
+            # F30 concerns only the re-parse of a dump (check_case adds it there); the parse itself is never excused
+            sigs = [x for x in eng.sigs(L) if x != "F30"]
+            res.feat("mixdim:" + "/".join(forms))
+            res.feat("mixdim-elem:" + en)
+            if any(k in plan["names"] for k in plan["consts"]):
+                res.feat("mixdim-constant-named-like-a-field")
+            for _i in range(3 if tier == "quick" else 6):
+                check_case(eng, res, L, form, en, t2_arrays.mixed_input(rnd, plan, cfg), cfg, sigs, label=f"mixdim-case:{form}")
+        if len(eng.lines) > 4000:
+            eng.flush()
+    eng.flush()
+    if False:  # PENDING-FINDING (t2): a constant with the name of a field that is defined BEFORE the structure is folded into the
+        # array type when the definition is parsed (parser.py:_parse_field_type evaluates every count without a context), so the
+        # field parsed before the array never gets a say: `#define cols 3` + `struct T { uint8 cols; uint8 a[cols]; uint8 tail; };`
+        # parses 01 09 08 07 06 as a=[9, 8, 7], the property gives a=[9] (with the #define after the structure it does).
+        for _ in range(60):
+            plan = t2_arrays.mixed_plan(rnd, early=True)
+            L = t2_arrays.MixedView(plan)
+            cfg = refimpl.Cfg("<", False, "uint64", L.consts)
+            check_case(eng, res, L, "eof" if "eof" in plan["forms"] else "mixed", plan["en"], t2_arrays.mixed_input(rnd, plan, cfg), cfg, eng.sigs(L),
+                       label="mixdim-case:early-constant")
+        eng.flush()
+
+
+def run_straddle(env, eng, res, rnd):
+    """null-terminated arrays of multi-byte elements over partial-zero elements (t2_arrays family B)"""
+    tier = env["tier"]
+    for en, tree, ai in t2_arrays.straddle_trees(rnd, tier):
+        for endian, align, compiled in itertools.product("<>", (False, True), (False, True)):
+            if tier == "quick" and rnd.random() < 0.4:
+                continue
+            L, err = load(tree, endian=endian, align=align, compiled=compiled)
+            if L is None:
+                res.feat(f"definition-rejected:null:{en}")
+                eng.report(f"array definition rejected: {type(err).__name__}: {err}", {"definition": defs.render_struct('T', tree)}, [])
+                continue
+            L.arr_index = ai
+            cfg = refimpl.Cfg(endian, align, "uint64", impl.CONSTS)
+            sigs = eng.sigs(L)
+            for i in range(6 if tier == "quick" else 24):
+                check_case(eng, res, L, "null", en, t2_arrays.emit_input(rnd, tree, cfg, long=(i % 6 == 5)), cfg, sigs, label=f"partial-zero:{en}")
         if len(eng.lines) > 4000:
             eng.flush()
     eng.flush()
@@ -167,6 +253,9 @@ def run(env) -> Result:
                 "occur. Compared: real parse vs reference parser vs Lean model; dumps re-appends terminators; wrong-size fixed arrays are refused. "
                 "Definition sets: 2-4 structures in one cstruct instance whose array element types are distinct but share their name (same-tag "
                 "local structs/unions with different bodies, a re-registered type, int48/uint48) under every length form, same laws per structure. "
+                "Mixed-form dimensions: 1-3 count fields, 1-3 dimensions each fixed/expression/EOF/null-terminated, late constants named like "
+                "fields and constants that are no field, 15 element kinds. Partial-zero elements: null-terminated arrays of 16 multi-byte "
+                "element kinds over inputs whose zero bytes straddle element boundaries, 0-70 elements, further fields behind. "
                 "distinct = (definition, config, input); non-trivial = the array has >= 1 element")
     eng = Engine(env, res, "C07")
     rnd = mkrng(env["seed"], "c07")
@@ -184,11 +273,13 @@ def run(env) -> Result:
             cfg = refimpl.Cfg(endian, align, "uint64", impl.CONSTS)
             sigs = eng.sigs(L)
             for _ in range(4 if tier == "quick" else 16):
-                check_case(eng, res, L, form, en, make_input(rnd, form), cfg, sigs)
+                check_case(eng, res, L, form, en, make_input(rnd, form, tree, cfg), cfg, sigs)
         if len(eng.lines) > 4000:
             eng.flush()
     eng.flush()
     run_sets(env, eng, res, mkrng(env["seed"], "c07-sets"))
+    run_mixed(env, eng, res, mkrng(env["seed"], "c07-mixed"))
+    run_straddle(env, eng, res, mkrng(env["seed"], "c07-straddle"))
     return res
 
 
